@@ -11,6 +11,7 @@ mod w_arena;
 mod w_c09;
 mod w_c11;
 mod w_c12;
+mod w_c18;
 mod w_misc;
 
 use json::J;
@@ -104,6 +105,10 @@ fn main() {
         }
         "c12diff" => {
             w_c12::run(&args, &mut rep);
+            true
+        }
+        "c18" => {
+            w_c18::run(&args, &mut rep);
             true
         }
         "ctor_table" => {
